@@ -70,9 +70,9 @@ pub enum Cmd {
 }
 
 fn cmd(xl: bool) -> impl Strategy<Value = Cmd> {
-    let open_max = if xl { 11u8 } else { 10u8 };
+    let open_kinds: Vec<u8> = if xl { (0u8..13).collect() } else { (0u8..13).filter(|k| *k != 10).collect() };
     prop_oneof![
-        4 => (0u8..open_max).prop_map(Cmd::Open),
+        4 => prop::sample::select(open_kinds).prop_map(Cmd::Open),
         2 => Just(Cmd::Close),
         1 => Just(Cmd::Pause),
         1 => Just(Cmd::Resume),
@@ -82,7 +82,7 @@ fn cmd(xl: bool) -> impl Strategy<Value = Cmd> {
         3 => (prop_oneof![4 => 0u8..3, 1 => 3u8..6], 0u8..8).prop_map(|(a, b)| Cmd::ChangeWin(a, b)),
         3 => (prop_oneof![4 => 0u8..3, 1 => 3u8..6], 0u8..8).prop_map(|(a, b)| Cmd::BinSearch(a, b)),
         3 => (prop_oneof![4 => 0u8..3, 1 => 3u8..6], 0u8..8).prop_map(|(a, b)| Cmd::Search(a, b)),
-        1 => (0u8..6).prop_map(Cmd::PluginCmd),
+        2 => (0u8..6).prop_map(Cmd::PluginCmd),
         1 => (0u8..6).prop_map(Cmd::Fs),
         1 => (0u8..6).prop_map(Cmd::Garbage),
         1 => (0u8..4).prop_map(Cmd::Wait),
@@ -92,7 +92,7 @@ fn cmd(xl: bool) -> impl Strategy<Value = Cmd> {
 /// mostly: open something, create some streams, then arbitrary commands
 fn history(xl: bool) -> impl Strategy<Value = Vec<Cmd>> {
     (
-        prop::option::weighted(0.8, prop_oneof![4 => 0u8..7, 1 => 0u8..if xl { 11 } else { 10 }]),
+        prop::option::weighted(0.8, prop_oneof![4 => 0u8..7, 1 => Just(11u8), 1 => prop::sample::select(if xl { (0u8..13).collect::<Vec<u8>>() } else { (0u8..13).filter(|k| *k != 10).collect() })]),
         prop::collection::vec(prop_oneof![3 => (0u8..5).prop_map(Cmd::Stream), 1 => (0u8..5).prop_map(Cmd::Query), 1 => Just(Cmd::Resume)], 0..4),
         prop::collection::vec(cmd(xl), 1..22),
     )
@@ -149,6 +149,7 @@ struct Model {
     resumed: bool,
     ids: Vec<(u32, bool)>, // live stream ids, one_pass flag
     stopped: Vec<u32>,
+    plugins: bool,
 }
 
 fn check(cmds: &Vec<Cmd>, rep: &mut Rep) -> Result<(), String> {
@@ -160,7 +161,7 @@ fn check(cmds: &Vec<Cmd>, rep: &mut Rep) -> Result<(), String> {
     let schedule: String = (0..60).map(|_| "1000:15").collect::<Vec<_>>().join(",");
     let mut srv = Server::start(&sb.dir, Some(&schedule))?;
     let mut c = Client::connect(srv.port)?;
-    let mut m = Model { open: false, mode: Mode::All, resumed: false, ids: vec![], stopped: vec![] };
+    let mut m = Model { open: false, mode: Mode::All, resumed: false, ids: vec![], stopped: vec![], plugins: false };
     let mut malformed_to_live = false;
     let mut close_while_parsing = false;
     let mut opened_large_at: Option<std::time::Instant> = None;
@@ -198,9 +199,11 @@ fn check(cmds: &Vec<Cmd>, rep: &mut Rep) -> Result<(), String> {
                         7 => "{}".to_string(),
                         8 => r#"{"files":"x"}"#.to_string(),
                         9 => "{".to_string(),
+                        11 => format!(r#"{{"files":["{}"],"plugins":[{{"name":"FileTransfer","allowSave":true}},{{"name":"Rewrite","rewrites":[]}}]}}"#, fp("m.dlt")),
+                        12 => format!(r#"{{"files":["{}"],"plugins":[1]}}"#, fp("s.dlt")),
                         _ => format!(r#"{{"files":["{}"]}}"#, fp("xl.dlt")),
                     };
-                    let valid = *k <= 6 || *k == 10;
+                    let valid = *k <= 6 || *k == 10 || *k == 11;
                     (format!("open {}", j), if m.open || !valid { "err" } else { "ok" }, "open")
                 }
                 Cmd::Close => ("close".into(), if m.open { "ok" } else { "err" }, "close"),
@@ -294,13 +297,16 @@ fn check(cmds: &Vec<Cmd>, rep: &mut Rep) -> Result<(), String> {
                 }
                 Cmd::PluginCmd(k) => {
                     let j = match k {
-                        0 => r#"{"name":"FileTransfer","cmd":"save","params":{}}"#,
+                        0 => r#"{"name":"FileTransfer","cmd":"save","params":{"saveAs":"/nonexistent_dir/x"},"cmdCtx":{"save":{"idx":0}}}"#,
                         1 => "{",
                         2 => "[]",
                         3 => r#"{"name":1}"#,
+                        4 => r#"{"name":"Rewrite","cmd":"x"}"#,
                         _ => "",
                     };
-                    (format!("plugin_cmd {}", j), "err", "plugin_cmd")
+                    // a plugin that is active and supports commands answers ok (with the result of the command)
+                    let e = if m.open && m.plugins && *k == 0 { "ok" } else { "err" };
+                    (format!("plugin_cmd {}", j), e, "plugin_cmd")
                 }
                 Cmd::Fs(k) => {
                     let (j, e) = match k {
@@ -366,6 +372,7 @@ fn check(cmds: &Vec<Cmd>, rep: &mut Rep) -> Result<(), String> {
                             _ => Mode::All,
                         };
                         m.resumed = false;
+                        m.plugins = *k == 11;
                         if [3u8, 6, 10].contains(k) {
                             opened_large_at = Some(std::time::Instant::now());
                         } else {
